@@ -91,12 +91,10 @@ func (e editor) leaf(from *Selection, to *Selection, m meta.Leafable, new bool, 
 	}
 
 	if hnd.Val != nil {
-		// If there is a different choice selected, need to clear it
-		// first if in upsert mode
-		if strategy == editUpsert {
-			if err := e.clearOnDifferentChoiceCase(to, m); err != nil {
-				return err
-			}
+		// If there is a different choice selected, need to clear it first: whatever the
+		// strategy, writing a node of one case is the end of the data of the other cases
+		if err := e.clearOnDifferentChoiceCase(to, m); err != nil {
+			return err
 		}
 		if !new {
 			if err := e.checkKeyLeaf(to, m, hnd.Val); err != nil {
@@ -276,6 +274,10 @@ func (e editor) node(from *Selection, to *Selection, m meta.HasDataDefinitions, 
 	case editInsert:
 		if toChild != nil {
 			return fmt.Errorf("%w. item '%s' found in '%s'.  ", fc.ConflictError, m.Ident(), fromRequest.Path)
+		}
+		// a node of another case of the choice ends the data of the case selected so far
+		if err := e.clearOnDifferentChoiceCase(to, m); err != nil {
+			return err
 		}
 		if toChild, err = create(); err != nil {
 			if err == errHiddenByCondition {
